@@ -62,7 +62,8 @@ func (li SyncCommitteeSubnetBits) SetBit(i uint64, v bool) {
 }
 
 func (li SyncCommitteeSubnetBits) OnesCount() uint64 {
-	return bitfields.BitlistOnesCount(li)
+	// a bitvector: no delimiter bit to discount
+	return bitfields.BitvectorOnesCount(li)
 }
 
 type SyncCommitteeSubnetBitsView struct {
